@@ -1,0 +1,16 @@
+//go:build verif
+
+package ratelimiter
+
+// Manager entry points as seen by the archiver (assumed, opaque): they only touch the
+// limiter's own objects. The per-bucket behaviour is verified in zz_verif_contracts.go (C13).
+
+//@ func (*BucketManager).Wait
+//@   opaque
+//@   modifies tokenBucket::*, managedBucket::*, mapof(bm.buckets)
+//@ func (*BucketManager).AdjustOnFailure
+//@   opaque
+//@   modifies tokenBucket::*, managedBucket::*, mapof(bm.buckets)
+//@ func (*BucketManager).OnSuccess
+//@   opaque
+//@   modifies tokenBucket::*, managedBucket::*, mapof(bm.buckets)
